@@ -394,23 +394,58 @@ def m_text_mentions_xmlns_blank(spec, rng):
 
 
 def m_inline_document(spec, rng):
-    """a draw:object that holds its document INLINE (office:document with its own office:meta, office:settings,
-    office:body ...), which the schema allows instead of an xlink:href"""
-    done = {'d': False}
-    inner = ('E', L.OFFICENS, u'document', [(L.OFFICENS, u'mimetype', u'application/vnd.oasis.opendocument.spreadsheet'), (L.OFFICENS, u'version', u'1.2')], [
-        ('E', L.OFFICENS, u'meta', [], [('E', L.DCNS, u'title', [], [('T', u'inner title')])]),
-        ('E', L.OFFICENS, u'settings', [], [('E', L.CONFIGNS, u'config-item-set', [(L.CONFIGNS, u'name', u'inner')], [])]),
-        ('E', L.OFFICENS, u'body', [], [('E', L.OFFICENS, u'spreadsheet', [], [('E', L.TABLENS, u'table', [(L.TABLENS, u'name', u'inner')], [
-            ('E', L.TABLENS, u'table-column', [], []), ('E', L.TABLENS, u'table-row', [], [('E', L.TABLENS, u'table-cell', [], [])])])])])])
-    def fn(e):
-        if not done['d'] and e[1] == L.TEXTNS and e[2] == 'p':
-            done['d'] = True
-            fr = ('E', L.DRAWNS, u'frame', [(L.DRAWNS, u'name', u'inline1'), (L.TEXTNS, u'anchor-type', u'as-char'),
-                                             (L.SVGNS, u'width', u'2cm'), (L.SVGNS, u'height', u'2cm')],
-                  [('E', L.DRAWNS, u'object', [], [inner])])
-            return ('E', e[1], e[2], e[3], list(e[4]) + [fr])
-        return e
-    return _edit_body(spec, lambda t: _map_tree(t, fn))
+    """draw:object elements that hold their document INLINE (office:document with its own office:meta, office:settings,
+    office:styles, office:font-face-decls, office:body ...), which the schema allows instead of an xlink:href: one at
+    the first paragraph, one NESTED inside the inline document's own body, in the content.xml of the top document and
+    of every sub-document"""
+    def inline(depth):
+        cell = [('E', L.TEXTNS, u'p', [], [('T', u'inner %d' % depth)])]
+        if depth > 0:
+            cell.append(('E', L.TEXTNS, u'p', [], [('E', L.DRAWNS, u'frame', [(L.DRAWNS, u'name', u'inline%d' % depth), (L.SVGNS, u'width', u'1cm'), (L.SVGNS, u'height', u'1cm')],
+                         [('E', L.DRAWNS, u'object', [], [inline(depth - 1)])])]))
+        return ('E', L.OFFICENS, u'document', [(L.OFFICENS, u'mimetype', u'application/vnd.oasis.opendocument.spreadsheet'), (L.OFFICENS, u'version', u'1.2')], [
+            ('E', L.OFFICENS, u'meta', [], [('E', L.DCNS, u'title', [], [('T', u'inner title %d' % depth)])]),
+            ('E', L.OFFICENS, u'settings', [], [('E', L.CONFIGNS, u'config-item-set', [(L.CONFIGNS, u'name', u'inner%d' % depth)], [])]),
+            ('E', L.OFFICENS, u'font-face-decls', [], [('E', L.STYLENS, u'font-face', [(L.STYLENS, u'name', u'Inner Font %d' % depth)], [])]),
+            ('E', L.OFFICENS, u'styles', [], [('E', L.STYLENS, u'style', [(L.STYLENS, u'name', u'InnerStyle%d' % depth), (L.STYLENS, u'family', u'table-cell')], [])]),
+            ('E', L.OFFICENS, u'automatic-styles', [], []),
+            ('E', L.OFFICENS, u'body', [], [('E', L.OFFICENS, u'spreadsheet', [], [('E', L.TABLENS, u'table', [(L.TABLENS, u'name', u'inner%d' % depth)], [
+                ('E', L.TABLENS, u'table-column', [], []), ('E', L.TABLENS, u'table-row', [], [('E', L.TABLENS, u'table-cell', [], cell)])])])])])
+    def edit(t):
+        done = {'d': False}
+        def fn(e):
+            if not done['d'] and e[1] == L.TEXTNS and e[2] == 'p':
+                done['d'] = True
+                fr = ('E', L.DRAWNS, u'frame', [(L.DRAWNS, u'name', u'inline top'), (L.TEXTNS, u'anchor-type', u'as-char'),
+                                                 (L.SVGNS, u'width', u'2cm'), (L.SVGNS, u'height', u'2cm')],
+                      [('E', L.DRAWNS, u'object', [], [inline(rng.choice([0, 1, 2]))])])
+                return ('E', e[1], e[2], e[3], list(e[4]) + [fr, ('T', u' after the inline object')])
+            return e
+        body = L.kid(t, L.OFFICENS, 'body')
+        if body is None:
+            return t
+        return ('E', t[1], t[2], t[3], [_map_tree(k, fn) if k is body else k for k in t[4]])
+    return _edit_body(spec, edit, top_only=False)
+
+
+def m_fonts_differ(spec, rng):
+    """content.xml and styles.xml declare DIFFERENT fonts under one style:name (the copy in content.xml gets another
+    svg:font-family)"""
+    def edit(t):
+        ff = L.kid(t, L.OFFICENS, 'font-face-decls')
+        if ff is None or not [k for k in ff[4] if k[0] == 'E']:
+            return t
+        first = [k for k in ff[4] if k[0] == 'E'][0]
+        alt = ('E', first[1], first[2], [a for a in first[3] if (a[0], a[1]) != (L.SVGNS, 'font-family')] + [(L.SVGNS, u'font-family', u"'Another Family'")], first[4])
+        return ('E', t[1], t[2], t[3], [('E', k[1], k[2], k[3], [alt if x is first else x for x in k[4]]) if k is ff else k for k in t[4]])
+    return _edit_body(spec, edit)
+
+
+def m_fonts_styles_only(spec, rng):
+    """font declarations in styles.xml only: content.xml has no office:font-face-decls"""
+    def edit(t):
+        return ('E', t[1], t[2], t[3], [k for k in t[4] if not (k[0] == 'E' and (k[1], k[2]) == (L.OFFICENS, 'font-face-decls'))])
+    return _edit_body(spec, edit, top_only=False)
 
 
 def m_object_renumber(spec, rng):
@@ -485,22 +520,22 @@ def m_class_names(spec, rng):
     return _edit_body(spec, lambda t: _map_tree(t, fn))
 
 
-REJECTED = [  # schema-valid (element, attribute, value) the bound converter refuses (classes KF-C15-6, KF-C15-7)
-    ((L.DRAWNS, u'polygon'), (L.SVGNS, u'viewBox'), u'+0 0 10 10'),
+REJECTED = [  # schema-valid (element, attribute, value) the bound converter refuses (class KF-C15-6: unprefixed QName)
+    ((L.DRAWNS, u'custom-shape'), (L.DRAWNS, u'engine'), u'myengine'),
     ((ODF % u'chart', u'chart'), (ODF % u'chart', u'class'), u'bar'),
 ]
 
 
 def m_converter_rejects(spec, rng):
-    """one schema-valid attribute value that the library's converter refuses: a polygon whose svg:viewBox uses an
-    explicit plus sign (xsd:integer allows it)"""
+    """one schema-valid attribute value that the library's converter refuses: a custom shape whose draw:engine is a
+    QName without prefix (xsd:QName allows it)"""
     (eq, aq, v) = REJECTED[0]
     done = {'d': False}
     def fn(e):
         if not done['d'] and e[1] == L.TEXTNS and e[2] == 'p':
             done['d'] = True
-            shape = ('E', eq[0], eq[1], [(aq[0], aq[1], v), (L.DRAWNS, u'points', u'0,0 10,0 5,10'), (L.SVGNS, u'width', u'1cm'),
-                                         (L.SVGNS, u'height', u'1cm'), (L.TEXTNS, u'anchor-type', u'as-char')], [])
+            shape = ('E', eq[0], eq[1], [(aq[0], aq[1], v), (L.SVGNS, u'width', u'1cm'), (L.SVGNS, u'height', u'1cm'),
+                                         (L.TEXTNS, u'anchor-type', u'as-char')], [])
             return ('E', e[1], e[2], e[3], list(e[4]) + [shape])
         return e
     return _edit_body(spec, lambda t: _map_tree(t, fn))
@@ -787,4 +822,5 @@ def m_replicate_objects(spec, rng):
     return _edit_body(s2, fn_top)
 
 
-MUTATORS += [('same-name-kinds', m_same_name_kinds), ('replicate-objects', m_replicate_objects)]
+MUTATORS += [('same-name-kinds', m_same_name_kinds), ('replicate-objects', m_replicate_objects),
+             ('fonts-differ', m_fonts_differ), ('fonts-styles-only', m_fonts_styles_only)]
